@@ -51,6 +51,13 @@ func genC17(repo string) (string, error) {
 	if err != nil {
 		return "", err
 	}
+	for _, f := range []*goast.File{st, rs} {
+		for _, d := range f.AST.Decls {
+			if fd, ok := d.(*ast.FuncDecl); ok && fd.Body != nil {
+				nzNormalize(fd)
+			}
+		}
+	}
 	for _, c := range []string{"minKVRangeLimit", "maxKVRangeLimit"} {
 		if err := o.constZ(st, c, c); err != nil {
 			return "", err
@@ -80,7 +87,7 @@ func genC17(repo string) (string, error) {
 	// the two paging loops
 	lopt := goast.SkelOpt{
 		Calls:   set("LoadRange", "Load", "loadFloatWithDefaultValue", "Unmarshal", "DecryptRegion", "NewStoreInfo", "NewRegionInfo", "f", "deleteRegion", "Remove", "storePath", "regionPath"),
-		Assigns: set("nextID", "endKey", "key", "startKey", "rangeLimit", "overlaps", "res"),
+		Assigns: nzAllLocals(),
 		Conds:   true,
 	}
 	if err := o.skeleton(st, "Storage", "LoadStores", "skel_LoadStores", lopt); err != nil {
@@ -150,6 +157,7 @@ func genC17(repo string) (string, error) {
 		if err != nil {
 			return "", err
 		}
+		nzNormalize(fd)
 		o.strList(b.coq, stmtTexts(f, fd), "statements of ("+b.recv+").LoadRange")
 	}
 	return o.sb.String(), nil
